@@ -19,20 +19,38 @@ pub struct Profile {
   pub max_edicts: u64,
   pub p_flaw: u64,
   pub p_plain: u64,
+  /// C37: attach an event receiver, index inscriptions, inscribe with this probability (percent)
+  pub p_inscribe: u64,
 }
 
 pub const P_SUPPLY: Profile = Profile {
-  name: "supply", blocks: (6, 16), max_tx: 4, w_commit: 12, p_named: 20, p_unnamed: 30, p_mint: 35, p_edicts: 60, max_edicts: 4, p_flaw: 12, p_plain: 12,
+  name: "supply", blocks: (6, 16), max_tx: 4, w_commit: 12, p_named: 20, p_unnamed: 30, p_mint: 35, p_edicts: 60, max_edicts: 4, p_flaw: 12, p_plain: 12, p_inscribe: 0,
 };
 pub const P_ALLOC: Profile = Profile {
-  name: "alloc", blocks: (4, 9), max_tx: 3, w_commit: 0, p_named: 0, p_unnamed: 35, p_mint: 20, p_edicts: 90, max_edicts: 8, p_flaw: 10, p_plain: 8,
+  name: "alloc", blocks: (4, 9), max_tx: 3, w_commit: 0, p_named: 0, p_unnamed: 35, p_mint: 20, p_edicts: 90, max_edicts: 8, p_flaw: 10, p_plain: 8, p_inscribe: 0,
 };
 pub const P_MINT: Profile = Profile {
-  name: "mint", blocks: (8, 18), max_tx: 4, w_commit: 4, p_named: 6, p_unnamed: 30, p_mint: 80, p_edicts: 25, max_edicts: 3, p_flaw: 15, p_plain: 5,
+  name: "mint", blocks: (8, 18), max_tx: 4, w_commit: 4, p_named: 6, p_unnamed: 30, p_mint: 80, p_edicts: 25, max_edicts: 3, p_flaw: 15, p_plain: 5, p_inscribe: 0,
 };
 pub const P_ETCH: Profile = Profile {
-  name: "etch", blocks: (9, 20), max_tx: 4, w_commit: 35, p_named: 70, p_unnamed: 15, p_mint: 10, p_edicts: 20, max_edicts: 2, p_flaw: 12, p_plain: 5,
+  name: "etch", blocks: (9, 20), max_tx: 4, w_commit: 35, p_named: 70, p_unnamed: 15, p_mint: 10, p_edicts: 20, max_edicts: 2, p_flaw: 12, p_plain: 5, p_inscribe: 0,
 };
+
+pub const P_EVENTS: Profile = Profile {
+  name: "events", blocks: (5, 12), max_tx: 4, w_commit: 8, p_named: 12, p_unnamed: 30, p_mint: 35, p_edicts: 55, max_edicts: 4, p_flaw: 12, p_plain: 25, p_inscribe: 35,
+};
+
+pub fn inscription_id_value(id: ord::InscriptionId) -> Vec<u8> {
+  use bitcoin::hashes::Hash;
+  let mut v = id.txid.to_byte_array().to_vec();
+  let idx = id.index.to_le_bytes();
+  let mut n = idx.len();
+  while n > 0 && idx[n - 1] == 0 {
+    n -= 1;
+  }
+  v.extend_from_slice(&idx[..n]);
+  v
+}
 
 pub type Features = BTreeMap<&'static str, u64>;
 
@@ -221,6 +239,22 @@ impl Gen<'_> {
       }
       ins.push(InSpec { txnum: o.0, vout: o.1, witness: vec![] });
     }
+    // outputs that carry inscriptions (C37): move them around
+    if p.p_inscribe > 0 && self.rng.chance(2, 5) {
+      let d = self.chain.dumps.last().unwrap();
+      let cands: Vec<(usize, u32)> = d
+        .sequence_number_to_satpoint
+        .iter()
+        .filter_map(|(_, sp)| self.chain.by_txid.get(&sp.outpoint.txid).map(|n| (*n, sp.outpoint.vout)))
+        .filter(|o| self.chain.live.contains(o) && !taken.contains(o))
+        .collect();
+      if !cands.is_empty() {
+        let o = *self.rng.pick(&cands);
+        taken.insert(o);
+        feat(&mut self.f, "input:inscribed");
+        ins.push(InSpec { txnum: o.0, vout: o.1, witness: vec![] });
+      }
+    }
     // outputs of earlier transactions of this block
     if !pending.is_empty() && self.rng.chance(1, 4) {
       let (n, nouts) = *self.rng.pick(pending);
@@ -279,6 +313,7 @@ impl Gen<'_> {
     }
     if plain {
       feat(&mut self.f, "tx:plain-transfer");
+      self.maybe_inscribe(&mut ins);
       self.mark_outputs(&ins, &outs);
       return Some(TxSpec { ins, outs });
     }
@@ -470,6 +505,7 @@ impl Gen<'_> {
       rs.flaw = 1 + self.rng.below(5) as u8;
       feat(&mut self.f, "flaw:injected");
     }
+    self.maybe_inscribe(&mut ins);
     let pos = self.rng.below(outs.len() as u64 + 1) as usize;
     outs.insert(pos, OutSpec::Script(runestone_script(&rs)));
     self.mark_outputs(&ins, &outs);
@@ -477,6 +513,44 @@ impl Gen<'_> {
   }
 
   fn mark_outputs(&mut self, _ins: &[InSpec], _outs: &[OutSpec]) {}
+
+  /// C37: reveal an inscription in an input that has no witness yet; sometimes as a child of an
+  /// inscription carried by one of the inputs
+  fn maybe_inscribe(&mut self, ins: &mut [InSpec]) {
+    if self.p.p_inscribe == 0 || !self.rng.chance(self.p.p_inscribe, 100) {
+      return;
+    }
+    let Some(k) = ins.iter().position(|i| i.witness.is_empty()) else { return };
+    let d = self.chain.dumps.last().unwrap();
+    let mut parents: Vec<Vec<u8>> = Vec::new();
+    if self.rng.chance(1, 2) {
+      for i in ins.iter() {
+        if i.txnum >= self.chain.txs.len() {
+          continue;
+        }
+        let op = bitcoin::OutPoint { txid: self.chain.txs[i.txnum].txid, vout: i.vout };
+        for (seq, sp) in &d.sequence_number_to_satpoint {
+          if sp.outpoint == op {
+            if let Some((_, e)) = d.sequence_number_to_inscription_entry.iter().find(|(s, _)| s == seq) {
+              parents.push(inscription_id_value(e.id));
+            }
+          }
+        }
+      }
+      if !parents.is_empty() {
+        feat(&mut self.f, "inscribe:child");
+      }
+    }
+    let inscription = ord::Inscription {
+      content_type: Some(b"text/plain".to_vec()),
+      body: Some(format!("hx{}", self.rng.below(1 << 30)).into_bytes()),
+      parents,
+      ..Default::default()
+    };
+    let script = inscription.append_reveal_script_to_builder(bitcoin::script::Builder::new()).into_script();
+    ins[k].witness = vec![script.into_bytes(), vec![]];
+    feat(&mut self.f, "inscribe");
+  }
 
   fn gen_commit_tx(&mut self, taken: &mut BTreeSet<(usize, u32)>) -> Option<TxSpec> {
     let fs: Vec<(usize, u32)> = self.funding.iter().copied().filter(|o| !taken.contains(o)).collect();
@@ -539,7 +613,7 @@ impl Gen<'_> {
 
 /// a whole chain; returns its case line and the feature counts
 pub fn gen_chain(rng: &mut Rng, p: Profile) -> (Line, Features) {
-  let mut g = Gen { rng, p, chain: Chain::new(), funding: Vec::new(), commits: Vec::new(), f: Features::new() };
+  let mut g = Gen { rng, p, chain: Chain::with(ChainOpts { events: p.p_inscribe > 0 }), funding: Vec::new(), commits: Vec::new(), f: Features::new() };
   // a few funding blocks first; the etch profile also plants commit outputs early
   g.chain.add_block(&[]);
   let cb = g.chain.blocks.last().unwrap().txnums[0];
